@@ -180,7 +180,24 @@ Definition c07_hung (k : c07_case) : bool := match k with mkC07 _ _ _ _ _ _ _ _ 
 Definition c07_verdict (k : c07_case) : N :=
   if c07_hung k then 4 else (if c07_corresponds k then 0 else 1) + (if c07_prop k then 0 else 2).
 Definition c07_verdicts (l : list c07_case) := nonzero (map c07_verdict l).
+(* known finding C13-target-cursor-beyond-stop: through a TARGET cursor whose block lies beyond the stop block S the
+   consumer holds nothing of the chain, so "delivers block S itself when it exists" applies — but the through-cursor
+   file source holds back the blocks above the cursor LIB until it sees the cursor block, the files are read only up to
+   the bundle of S, and the stream ends with stop-block-reached without S (c13_stop_target_scope_needed).  c13_prop
+   exempts every cursor at or beyond S (right for a cursor the consumer resumes FROM); this clause is the target part. *)
+Definition c13_target_beyond_stop (k : c07_case) : bool :=
+  match k with
+  | C07Skip => false
+  | mkC07 first kept bundle root arrival a0 hubstart merged mode start cur live stop filt custom pauses canon forked events pushed err =>
+      (mode =? 2) && (err =? 1) && negb (stop =? 0) && ((filt =? 0) || (filt =? 1)) &&
+      match cur with Some cu => stop <=? rn (cu_blk cu) | None => false end &&
+      existsb (fun b => (bnum b =? stop) && (abs_start first start 0 <=? bnum b)) canon &&
+      negb (existsb (fun e => bnum (eblk e) =? stop) events)
+  end.
+
 Definition c13_verdict (k : c07_case) : N :=
-  if c07_hung k then 4 else (if c07_corresponds k then 0 else 1) + (if c13_prop k then 0 else 2).
+  if c07_hung k then 4 else
+  let base := (if c07_corresponds k then 0 else 1) + (if c13_prop k then 0 else 2) in
+  if (base =? 0) && c13_target_beyond_stop k then 6 else base.
 Definition c13_verdicts (l : list c07_case) := nonzero (map c13_verdict l).
 Definition c07_in_scope (k : c07_case) : bool := match k with C07Skip => false | _ => true end.
